@@ -328,6 +328,9 @@ pub struct MAdapter {
     pub create_vt: usize,
     /// spans that the inner object held and finished in its destructor
     pub held_finished: Vec<usize>,
+    /// a second span bound by a second, outer `in_span` on the same object (its scope encloses
+    /// the scope of `span` during every call; both finish together)
+    pub outer: Option<usize>,
 }
 
 #[derive(Clone, Debug)]
@@ -345,6 +348,8 @@ pub struct MPoll {
     pub inside_panicked: bool,
     /// scope opened by this poll (model)
     pub scope: Option<usize>,
+    /// scope of the outer span of a chained adapter, opened around `scope`
+    pub outer_scope: Option<usize>,
     /// enter_on_poll local span (model)
     pub eop_local: Option<usize>,
     /// script was exhausted (inner polled after completion)
